@@ -17,7 +17,12 @@
  *   A <H|S> <expr> <fv>                                 | fast=<ares> slow=<ares> dups=<n>
  * The full format (values, prefix expressions, rendering, observations) is described in _work/scratch/c16/PROTOCOL.md.
  *
- * Modes:  gen --seed S --tier quick|thorough     |     ops FILE     |     child <variant> <conc>   (internal)
+ * Modes:  gen --seed S --tier quick|thorough [--cases N] [--print-only]   (quick 4000 cases, L 1,16 on every 3rd;
+ *                                                                         thorough 25000 cases, all L 1,16)
+ *         ops FILE
+ *         child <inv|plain|wrap> <conc>    (internal: one configuration load, case lines on stdin)
+ * The children do not call ConfigItem::ActivateItems: the observations are taken right after a successful CommitItems.
+ * Every rendered filter is compiled separately in the child and its AST compared with the prefix form (FATAL if different).
  * Env:    C16_DEBUG=1  children keep stderr and print `# ...` diagnostics (config text, error texts)
  *         C16_JOBS=n   size of the child pool (default 16)
  */
@@ -1337,7 +1342,7 @@ struct Gen {
 		bool loopHost = false;
 		if (hasFor) {
 			bool dictLike;
-			if (pct(10)) {
+			if (pct(3)) {
 				forSpec = (tgt == 'S' && r.coin()) ? "hmix" : "mix";
 				dictLike = r.coin();
 			} else {
@@ -1353,8 +1358,8 @@ struct Gen {
 			}
 			fk = "k";
 			if (dictLike) fv = "v";
-			if (pct(6)) { fk = r.coin() ? "host" : "service"; loopHost = true; }
-			else if (dictLike && pct(3)) { fv = r.coin() ? "host" : "service"; loopHost = true; }
+			if (r.below(1000) < 11) { fk = r.coin() ? "host" : "service"; loopHost = true; }
+			else if (dictLike && r.below(1000) < 8) { fv = r.coin() ? "host" : "service"; loopHost = true; }
 			else if (dictLike && pct(2)) fv = fk;
 		}
 		bool noAtoms = loopHost;
@@ -1433,12 +1438,12 @@ struct Gen {
 					if (!nm.empty()) {
 						P n = nm[r.below(nm.size())];
 						n->k = 'V'; n->s = "n";
-						kvs.push_back(r.below(5) == 0 ? "n='__name" : "n='name");
+						kvs.push_back(r.below(12) == 0 ? "n='__name" : "n='name");
 					}
 				}
 				fv = kvs.empty() ? "e" : Join(kvs, ",");
 			}
-		} else if (kind < 64) {
+		} else if (kind < 59) {
 			/* a filter variable that shares its name with what EvaluateFilter puts into the frame */
 			static const char *names[] = { "host", "service", "obj" };
 			std::string v = names[r.below(3)];
@@ -1470,9 +1475,18 @@ struct Gen {
 		int nr = 1 + (int)r.below(4);
 		std::vector<int> rk;
 		bool hasDep = false;
+		/* services created by an `apply Service` rule would become targets of the `to Service` rules of the same load
+		 * (cascade): a case has either an S->H rule or ->S rules, never both */
+		bool hasSH = false, hasToS = false;
 		for (int i = 0; i < nr; i++) {
-			rk.push_back((int)r.below(7));
-			if (kinds[rk.back()][0] == 'D') hasDep = true;
+			int k;
+			do {
+				k = (int)r.below(7);
+			} while ((k == 0 && hasToS) || (kinds[k][1] == 'S' && hasSH));
+			if (k == 0) hasSH = true;
+			if (kinds[k][1] == 'S') hasToS = true;
+			rk.push_back(k);
+			if (kinds[k][0] == 'D') hasDep = true;
 		}
 		out.push_back("C " + std::to_string(idx) + " gen");
 		hasK = pct(30);
@@ -1543,7 +1557,7 @@ int main(int argc, char **argv)
 		Rng seeder(seed);
 		Rng rng(seeder.next() ^ 0xC16);
 		Gen g(rng);
-		int n = atoi(argOr(argc, argv, "--cases", thorough ? "25000" : "2500"));
+		int n = atoi(argOr(argc, argv, "--cases", thorough ? "25000" : "4000"));
 		for (int i = 0; i < n; i++) g.GenCase(i, thorough || i % 3 == 0, lines);
 		if (hasFlag(argc, argv, "--print-only")) {
 			for (auto& l : lines) puts(l.c_str());
